@@ -376,6 +376,7 @@ func cmdCheck(args []string) {
 		for _, v := range violations {
 			fmt.Println(v)
 		}
+		os.RemoveAll(tmp) // deferred calls do not run on os.Exit
 		os.Exit(1)
 	}
 }
